@@ -290,6 +290,15 @@ def r5(ctx: Ctx) -> RuleReport:
                               'NoOpModel.deinvert is bypassed, so the no-op model deinverts although it is documented not to')
             elif 'Model.invert_role' in names:
                 rep.violation(key, f.loc(call), 'interpretation rewrites a role with invert_role, bypassing Model.deinvert')
+    # neither direction of the layout ever canonicalises a role: normalisations (AMR :mod-of -> :domain) denote another triple
+    for root2 in (ctx.repo.func(L, 'interpret'), ctx.repo.func(L, 'configure'), ctx.repo.func(L, 'reconfigure')):
+        for f in [x for x in ctx.cg.reachable([root2]) if x.module.name == L]:
+            for call, ts in ctx.cg.calls_in(f):
+                names = {t.func.qualname for t in ts if t.kind == 'func'}
+                if names & {'Model.canonicalize', 'Model.canonicalize_role', 'Model._canonicalize_inversion'}:
+                    rep.violation(f'{f.module.name}:{f.qualname}: {norm(call)[:70]}', f.loc(call),
+                                  'the layout canonicalises a role while writing or reading a tree: a model normalisation (AMR rewrites :mod-of to '
+                                  ':domain) turns the inverted role into a role that is not inverted, so the text denotes a different triple')
     return rep
 
 
@@ -550,6 +559,68 @@ def _sym(ctx: Ctx, fi: FuncInfo, e: ast.AST, env: Dict[str, tuple], b: str):
     return ('other', norm(e))
 
 
+def _r26_pivot_form(ctx: Ctx, rep: RuleReport, fi: FuncInfo, b: str) -> bool:
+    """`pivot = 1 if <leading concept> else 0; b[pivot:] = sorted(b[pivot:], key=key)` with a recursion loop over a slice of b."""
+    from ..resolve import expand
+    st = [n for n in walk_local(fi.node) if isinstance(n, ast.Assign) and isinstance(n.targets[0], ast.Subscript) and norm(n.targets[0].value) == b
+          and isinstance(n.targets[0].slice, ast.Slice) and n.targets[0].slice.lower is not None and n.targets[0].slice.upper is None]
+    if len(st) != 1:
+        return False
+    store = st[0]
+    low = store.targets[0].slice.lower
+    v = store.value
+    if not (isinstance(v, ast.Call) and norm(v.func) == 'sorted' and v.args and norm(v.args[0]) == f'{b}[{norm(low)}:]'):
+        return False
+    pv = expand(ctx, fi, low, store)
+    cases = []
+    if isinstance(pv, ast.IfExp) and isinstance(pv.body, ast.Constant) and isinstance(pv.orelse, ast.Constant):
+        cases = [(norm(pv.test), True, pv.body.value), (norm(pv.test), False, pv.orelse.value)]
+    elif isinstance(pv, ast.Constant):
+        cases = [('True', True, pv.value)]
+    else:
+        return False
+    for test, pol, k in cases:
+        key = f'penman.layout:_rearrange: stored value when `{test}` is {pol}'
+        concept = pol and "[0][0] == '/'" in test
+        if (k == 1 and concept) or (k == 0 and not concept):
+            rep.ok(key, fi.loc(store), f'b[{k}:] = sorted(b[{k}:])')
+        elif k == 0 and concept:
+            rep.violation(key, fi.loc(store), 'a leading concept branch takes part in the sort: it can lose its first position')
+        else:
+            rep.violation(key, fi.loc(store), f'the first {k} branch(es) are kept in place although the test `{test}` does not establish a leading concept branch')
+    keyp = fi.positional[1] if len(fi.positional) > 1 else 'key'
+    good = any(k.arg == 'key' and norm(k.value) == keyp for k in v.keywords) and not any(k.arg == 'reverse' for k in v.keywords)
+    rep.add('penman.layout:_rearrange: sorted(..., key=<the key argument>) (stable, ascending)', fi.loc(store), 'ok' if good else 'undecided')
+    # recursion: the loop must reach every branch that can be a nested node
+    found = False
+    for lp in [n for n in walk_local(fi.node) if isinstance(n, ast.For)]:
+        it = lp.iter
+        start = None
+        if norm(it) == b:
+            start = 0
+        elif isinstance(it, ast.Subscript) and norm(it.value) == b and isinstance(it.slice, ast.Slice) and it.slice.upper is None:
+            lo = expand(ctx, fi, it.slice.lower, lp) if it.slice.lower is not None else ast.Constant(value=0)
+            start = lo.value if isinstance(lo, ast.Constant) else ('pivot' if norm(lo) == norm(pv) else None)
+        recs = [c for c in ast.walk(lp) if isinstance(c, ast.Call) and norm(c.func) == fi.name]
+        if not recs or start is None:
+            continue
+        found = True
+        key = 'penman.layout:_rearrange: recurses into every nested node with the same key'
+        if start == 'pivot' or start == 0:
+            rep.ok(key, fi.loc(lp), f'loop over {norm(it)}')
+        else:
+            skipped = [(t, pol, k) for t, pol, k in cases if isinstance(start, int) and start > k]
+            if skipped:
+                t, pol, k = skipped[0]
+                rep.violation(key, fi.loc(lp), f'the recursion ranges over `{norm(it)}` although the sort starts at {k} when `{t}` is {pol}: the first branch of a node '
+                              f'without a leading concept is never descended into, so the subtree under it keeps its old order')
+            else:
+                rep.ok(key, fi.loc(lp), f'loop over {norm(it)}')
+    if not found:
+        rep.undecided('penman.layout:_rearrange: recurses into every nested node with the same key', fi.loc())
+    return True
+
+
 @rule('R26', 'rearrange stores a permutation of the branches that keeps a leading concept branch first; reconfigure only sorts')
 def r26(ctx: Ctx) -> RuleReport:
     rep = RuleReport('R26', r26.title, floor=5)
@@ -562,76 +633,81 @@ def r26(ctx: Ctx) -> RuleReport:
         raise AnalysisError('_rearrange: no `_, branches = node`')
     b = unp
     stores = [n for n in walk_local(fi.node) if isinstance(n, ast.Assign) and norm(n.targets[0]) in (f'{b}[:]',)]
-    if len(stores) != 1:
+    if not stores and _r26_pivot_form(ctx, rep, fi, b):
+        stores = None
+    if stores is None:
+        pass
+    elif len(stores) != 1:
         rep.undecided('penman.layout:_rearrange: the branch list is replaced in place exactly once', fi.loc(),
                       f'{len(stores)} stores to {b}[:]')
         return rep
-    store = stores[0]
-    # cases: arms of the if that defines first/rest
-    ifs = [n for n in fi.node.body if isinstance(n, ast.If)]
-    cases: List[Tuple[str, Dict[str, tuple], bool]] = []
-    if len(ifs) == 1:
-        for arm, pol in ((ifs[0].body, True), (ifs[0].orelse, False)):
-            env: Dict[str, tuple] = {}
-            for st in arm:
+    if stores is not None:
+        store = stores[0]
+        # cases: arms of the if that defines first/rest
+        ifs = [n for n in fi.node.body if isinstance(n, ast.If)]
+        cases: List[Tuple[str, Dict[str, tuple], bool]] = []
+        if len(ifs) == 1:
+            for arm, pol in ((ifs[0].body, True), (ifs[0].orelse, False)):
+                env: Dict[str, tuple] = {}
+                for st in arm:
+                    if isinstance(st, ast.Assign) and isinstance(st.targets[0], ast.Name):
+                        env[st.targets[0].id] = _sym(ctx, fi, st.value, env, b)
+                cases.append((norm(ifs[0].test), env, pol))
+        else:
+            env = {}
+            for st in fi.node.body:
                 if isinstance(st, ast.Assign) and isinstance(st.targets[0], ast.Name):
                     env[st.targets[0].id] = _sym(ctx, fi, st.value, env, b)
-            cases.append((norm(ifs[0].test), env, pol))
-    else:
-        env = {}
-        for st in fi.node.body:
-            if isinstance(st, ast.Assign) and isinstance(st.targets[0], ast.Name):
-                env[st.targets[0].id] = _sym(ctx, fi, st.value, env, b)
-        cases.append(('True', env, True))
-    for test, env, pol in cases:
-        v = _sym(ctx, fi, store.value, env, b)
-        key = f'penman.layout:_rearrange: stored value when `{test}` is {pol}'
-        good, k = False, None
-        if v[0] == 'sorted' and v[1] == ('empty',):
-            v = ('concat', ('empty',), v)
-        if v[0] == 'concat' and v[2][0] == 'sorted':
-            A, B = v[1], v[2][1]
-            if A == ('empty',) and B in (('slice', 0, None),):
+            cases.append(('True', env, True))
+        for test, env, pol in cases:
+            v = _sym(ctx, fi, store.value, env, b)
+            key = f'penman.layout:_rearrange: stored value when `{test}` is {pol}'
+            good, k = False, None
+            if v[0] == 'sorted' and v[1] == ('empty',):
+                v = ('concat', ('empty',), v)
+            if v[0] == 'concat' and v[2][0] == 'sorted':
+                A, B = v[1], v[2][1]
+                if A == ('empty',) and B in (('slice', 0, None),):
+                    good, k = True, 0
+                elif A[0] == 'slice' and B[0] == 'slice' and A[1] == 0 and A[2] == B[1] and B[2] is None:
+                    good, k = True, A[2]
+            elif v[0] == 'sorted' and v[1] == ('slice', 0, None):
                 good, k = True, 0
-            elif A[0] == 'slice' and B[0] == 'slice' and A[1] == 0 and A[2] == B[1] and B[2] is None:
-                good, k = True, A[2]
-        elif v[0] == 'sorted' and v[1] == ('slice', 0, None):
-            good, k = True, 0
-        msg = f'{v}'
-        if good and k:
-            # keeping k leading branches unsorted is only right when they are the concept branch
-            concept = pol and "[0][0] == '/'" in test and k == 1
-            if not concept:
+            msg = f'{v}'
+            if good and k:
+                # keeping k leading branches unsorted is only right when they are the concept branch
+                concept = pol and "[0][0] == '/'" in test and k == 1
+                if not concept:
+                    good = False
+                    msg = f'the first {k} branch(es) are kept in place although the test `{test}` does not establish a leading concept branch'
+            if good and k == 0 and pol and "[0][0] == '/'" in test:
                 good = False
-                msg = f'the first {k} branch(es) are kept in place although the test `{test}` does not establish a leading concept branch'
-        if good and k == 0 and pol and "[0][0] == '/'" in test:
-            good = False
-            msg = 'a leading concept branch takes part in the sort: it can lose its first position'
-        positive = not good and msg != f'{v}'          # a recognised shape with the wrong split point
-        rep.add(key, fi.loc(store), 'ok' if good else ('violation' if positive else 'undecided'), msg if not good else f'concat(b[:{k}], sorted(b[{k}:]))')
-    # the sort is the builtin stable sort with the caller's key and default direction
-    srt = [n for n in ast.walk(store.value) if isinstance(n, ast.Call) and isinstance(n.func, ast.Name) and n.func.id == 'sorted']
-    keyp = fi.positional[1] if len(fi.positional) > 1 else 'key'
-    good = len(srt) == 1 and any(k.arg == 'key' and norm(k.value) == keyp for k in srt[0].keywords)
-    rep.add('penman.layout:_rearrange: sorted(..., key=<the key argument>) (stable, ascending)', fi.loc(store), 'ok' if good else 'undecided')
-    # recursion into every nested node
-    loops = [n for n in walk_local(fi.node) if isinstance(n, ast.For)]
-    rec_ok = False
-    cfg = CFG(fi.node)
-    IN = cond_facts(cfg)
-    pm = ctx.repo.parent_map(fi.node)
-    for lp in loops:
-        src = single_def(ctx, fi, lp.iter)
-        covers = norm(lp.iter) == b or (isinstance(lp.iter, ast.Name) and any(
-            env.get(lp.iter.id, ('?',))[0] == 'slice' for _, env, _ in cases))
-        for n in ast.walk(lp):
-            if isinstance(n, ast.Call) and norm(n.func) == fi.name:
-                facts = facts_at(cfg, IN, pm, n)
-                tvar = norm(lp.target.elts[1]) if isinstance(lp.target, ast.Tuple) and len(lp.target.elts) == 2 else None
-                if covers and tvar and (f'is_atomic({tvar})', False) in facts and norm(n.args[0]) == tvar \
-                        and not [x for x in ast.walk(lp) if isinstance(x, (ast.Break, ast.Continue, ast.Return))]:
-                    rec_ok = True
-    rep.add('penman.layout:_rearrange: recurses into every nested node with the same key', fi.loc(), 'ok' if rec_ok else 'undecided')
+                msg = 'a leading concept branch takes part in the sort: it can lose its first position'
+            positive = not good and msg != f'{v}'          # a recognised shape with the wrong split point
+            rep.add(key, fi.loc(store), 'ok' if good else ('violation' if positive else 'undecided'), msg if not good else f'concat(b[:{k}], sorted(b[{k}:]))')
+        # the sort is the builtin stable sort with the caller's key and default direction
+        srt = [n for n in ast.walk(store.value) if isinstance(n, ast.Call) and isinstance(n.func, ast.Name) and n.func.id == 'sorted']
+        keyp = fi.positional[1] if len(fi.positional) > 1 else 'key'
+        good = len(srt) == 1 and any(k.arg == 'key' and norm(k.value) == keyp for k in srt[0].keywords)
+        rep.add('penman.layout:_rearrange: sorted(..., key=<the key argument>) (stable, ascending)', fi.loc(store), 'ok' if good else 'undecided')
+        # recursion into every nested node
+        loops = [n for n in walk_local(fi.node) if isinstance(n, ast.For)]
+        rec_ok = False
+        cfg = CFG(fi.node)
+        IN = cond_facts(cfg)
+        pm = ctx.repo.parent_map(fi.node)
+        for lp in loops:
+            src = single_def(ctx, fi, lp.iter)
+            covers = norm(lp.iter) == b or (isinstance(lp.iter, ast.Name) and any(
+                env.get(lp.iter.id, ('?',))[0] == 'slice' for _, env, _ in cases))
+            for n in ast.walk(lp):
+                if isinstance(n, ast.Call) and norm(n.func) == fi.name:
+                    facts = facts_at(cfg, IN, pm, n)
+                    tvar = norm(lp.target.elts[1]) if isinstance(lp.target, ast.Tuple) and len(lp.target.elts) == 2 else None
+                    if covers and tvar and (f'is_atomic({tvar})', False) in facts and norm(n.args[0]) == tvar \
+                            and not [x for x in ast.walk(lp) if isinstance(x, (ast.Break, ast.Continue, ast.Return))]:
+                        rec_ok = True
+        rep.add('penman.layout:_rearrange: recurses into every nested node with the same key', fi.loc(), 'ok' if rec_ok else 'undecided')
     # rearrange.sort_key
     sk = ctx.repo.func(L, 'rearrange.sort_key')
     rets = [n for n in walk_local(sk.node) if isinstance(n, ast.Return) and n.value is not None]
